@@ -346,6 +346,11 @@ func runC15(c *Ctx) {
 		fa, ok := st.Addr.(*ssa.FieldAddr)
 		return ok && fieldAddrIs(fa, "core.pathManager", "pathConfs")
 	})
+	// no shortcut: every return of doReloadConf has examined every live path and every
+	// new configuration (an early return on a "nothing changed" proxy leaves stale
+	// paths alive and static paths uncreated - seeded change C15)
+	c.MustPass(p, rc, "C15.reload.all_examined", "return", anyReturn, F("next(range($0.paths))#0"))
+	c.MustPass(p, rc, "C15.reload.all_examined", "return", anyReturn, F("next(range($1))#0"))
 	// static paths: created for every non-regexp configuration without a live path
 	for _, cl := range callsIn(rc, "(*core.pathManager).createPath") {
 		ccl := cl
